@@ -25,6 +25,7 @@ import (
 	"github.com/nspcc-dev/hrw/v2"
 	ierrors "github.com/nspcc-dev/neofs-node/internal/errors"
 	"github.com/nspcc-dev/neofs-node/pkg/local_object_storage/blobstor/common"
+	"github.com/nspcc-dev/neofs-node/pkg/local_object_storage/blobstor/fstree"
 	"github.com/nspcc-dev/neofs-node/pkg/local_object_storage/engine"
 	meta "github.com/nspcc-dev/neofs-node/pkg/local_object_storage/metabase"
 	"github.com/nspcc-dev/neofs-node/pkg/local_object_storage/shard"
@@ -114,6 +115,10 @@ type Spec struct {
 	EOpts []engine.Option
 }
 
+// fstOpts: no fsync and no 10 ms write batching (the engine-level checks do
+// not depend on the blob file layout; C10/C12 cover it).
+var fstOpts = []fstree.Option{fstree.WithNoSync(true), fstree.WithCombinedCountLimit(1)}
+
 var readMethods = map[string]bool{"Get": true, "GetBytes": true, "GetStream": true, "GetRangeStream": true, "Head": true,
 	"ReadHeader": true, "ReadObject": true, "ReadPayloadRange": true, "ReadObjectParts": true}
 
@@ -126,10 +131,10 @@ func (e *Eng) newSlot(k int, dir string, id common.ID, plain bool) (*Sh, stor.Sh
 	}
 	// bbolt tuning only (no durability is needed on per-case temp dirs; a large
 	// initial mapping avoids the munmap/mmap cycle on every file growth).
-	cfg := stor.ShardCfg{Dir: dir, Epoch: e.Ep, MetaOpts: []meta.Option{meta.WithBoltDBOptions(&bbolt.Options{
+	cfg := stor.ShardCfg{Dir: dir, Epoch: e.Ep, FSTOpts: fstOpts, MetaOpts: []meta.Option{meta.WithBoltDBOptions(&bbolt.Options{
 		NoSync: true, NoGrowSync: true, NoFreelistSync: true, InitialMmapSize: 1 << 20, Timeout: 5 * time.Second})}}
 	if !plain {
-		s.FS = faultstore.New(stor.FSTree(stor.BlobDir(dir)))
+		s.FS = faultstore.New(stor.FSTree(stor.BlobDir(dir), fstOpts...))
 		s.FS.Fail = func(m string, _ []oid.Address) error {
 			switch {
 			case (m == "Put" || m == "PutBatch") && s.FailPut:
